@@ -76,9 +76,9 @@ def decJ (s : String) : Option J :=
   | some (v, _) => some v
   | none => none
 
-def parseCfg (s : String) : Cfg := Id.run do
-  let mut cfg : Cfg := { repl := T.defaultRepl, nums := false, bools := false, ips := false, ns := false,
-                         eager := [], re := none, enc := none }
+def parseCfg (s : String) : LineCfg := Id.run do
+  let mut cfg : LineCfg := { repl := T.defaultRepl, nums := false, bools := false, ips := false, ns := false,
+                             eager := [], re := none, enc := none }
   if s == "-" then return cfg
   let mut z := false
   let mut zm : List Str := []
@@ -118,10 +118,10 @@ def showMeta : Option Meta → String
   | some (.ty t) => "ty:" ++ showMetaShort (.ty t)
   | some (.map kvs) => "map:" ++ ",".intercalate (kvs.map fun (k, m) => hexOfStr k ++ "=" ++ showMetaShort m)
 
-def lineFn (cfg : Cfg) (bs : Bytes) : Option Bytes :=
+def lineFn (cfg : LineCfg) (bs : Bytes) : Option Bytes :=
   match parseObj bs with
   | none => none
-  | some e => some (printObj (redactLine T cfg redactPlan e))
+  | some e => some (printObj (redactLine T cfg.toCfg cfg.eager redactPlan e))
 
 def strList (xs : List Str) : String := encJ (.arr (xs.map .str))
 
@@ -134,24 +134,24 @@ def runOp (f : List String) : String :=
   | [_, "getop", s, kp] => showMeta (getOp T (parsePath kp) (s == "1"))
   | [_, "scalar", cfg, s, sel, kp, v] =>
     match decJ v with
-    | some j => encJ (redactScalar T (parseCfg cfg) (parsePath kp) j (s == "1") (sel == "1"))
+    | some j => encJ (redactScalar T (parseCfg cfg).toCfg (parsePath kp) j (s == "1") (sel == "1"))
     | none => "baddec"
   | [_, "query", cfg, eager, v] =>
     match decJ v with
     | some (.obj kvs) =>
-      let c : Ctx := { T := T, cfg := parseCfg cfg, rfn := eager == "1" }
+      let c : Ctx := { T := T, cfg := (parseCfg cfg).toCfg, rfn := eager == "1" }
       encJ (.obj (fromPairs (c.Q false none [] kvs)))
     | _ => "baddec"
   | [_, "stage", cfg, eager, v] =>
     match decJ v with
     | some j =>
-      let c : Ctx := { T := T, cfg := parseCfg cfg, rfn := eager == "1" }
+      let c : Ctx := { T := T, cfg := (parseCfg cfg).toCfg, rfn := eager == "1" }
       encJ (c.P (isInSearchStage T j) [] j)
     | none => "baddec"
   | [_, "cmd", cfg, eager, v] =>
     match decJ v with
     | some j =>
-      let c : Ctx := { T := T, cfg := parseCfg cfg, rfn := eager == "1" }
+      let c : Ctx := { T := T, cfg := (parseCfg cfg).toCfg, rfn := eager == "1" }
       encJ (c.cmdDoc j)
     | none => "baddec"
   | [_, "line", cfg, h] =>
@@ -160,7 +160,7 @@ def runOp (f : List String) : String :=
     | none => "skip"
   | [_, "linetree", cfg, h] =>
     match parseObj (unhexBytes h) with
-    | some e => encJ (.obj (redactLine T (parseCfg cfg) redactPlan e))
+    | some e => encJ (.obj (redactLine T (parseCfg cfg).toCfg (parseCfg cfg).eager redactPlan e))
     | none => "skip"
   | [_, "parse", h] =>
     match parseObj (unhexBytes h) with
